@@ -329,7 +329,12 @@ func (b *defaultBinder) preBindBody(req *protocol.Request, v interface{}) error 
 	ct := bytesconv.B2s(req.Header.ContentType())
 	switch strings.ToLower(utils.FilterContentType(ct)) {
 	case consts.MIMEApplicationJSON:
-		return hJson.Unmarshal(req.Body(), v)
+		body := req.Body()
+		if len(body) == 0 {
+			// (the body of unknown length turned out to be empty)
+			return nil
+		}
+		return hJson.Unmarshal(body, v)
 	case consts.MIMEPROTOBUF:
 		msg, ok := v.(proto.Message)
 		if !ok {
